@@ -154,12 +154,17 @@ class Ctor_form_rpy(A):
     body_exp = True
     max_paths = 600
     timeout = 40.0
+    lo, hi = 0.01, 3.0
+    shape_bound = 'angles in [0.01, 3] (quick); all sign combinations in [-3, 3] in the thorough tier'
 
     def run(self, g, fn, args, kwargs):
         self.modes(g)
         tm = g.module(TMM).tm
         p = g.reals('p', 3, scale=2.0)
-        a = g.reals('r', 3, lo=-3.0, hi=3.0)
+        a = g.reals('r', 3, lo=self.lo, hi=self.hi)
+        if g.symbolic and self.lo < 0:
+            for ai in a:
+                bool(ai >= 0)          # case split on the signs: |r| is r or -r on each path
         t = tm([p[0], p[1], p[2], a[0], a[1], a[2]], True)
         return t.gTM(), p, a, zone(g)
 
@@ -172,6 +177,10 @@ class Ctor_form_rpy(A):
         #  closeness of Rx Ry Rz to the identity on those paths is not decided here)
         g.eq('rpy form: position kept, last row 0 0 0 1', M[:, 3], want[:, 3])
         g.eq('rpy form: last row', M[3, :], want[3, :])
+
+
+register(type('Ctor_form_rpy_signed', (Ctor_form_rpy,), dict(lo=-3.0, hi=3.0, tier='thorough',
+                                                           __doc__='rpy form for angles of either sign in [-3, 3]')))
 
 
 @register
